@@ -8,7 +8,7 @@
 From Coq Require Import List NArith Bool.
 From Coq.Strings Require Import Byte.
 From EV Require Import Base.Bytes Base.Codec Base.Sha256 Gen.Tables Model.Tx Model.SighashImpl Model.SighashCache Model.SighashSpec Model.SighashQuery
-  Proofs.SighashCache Proofs.Sighash.
+  Model.SighashCommit Proofs.SighashCache Proofs.Sighash Proofs.SighashCommit Proofs.SighashCommitTap Proofs.SighashCommitSeg Proofs.SighashCommitAll Proofs.SighashCanon Proofs.Tx.
 Import ListNotations.
 Open Scope N_scope.
 
@@ -122,45 +122,64 @@ Theorem C03_none_single_ignore_other_sequences : forall idx t t', tx_eq_but_othe
   (forall sc v ht, (hash_single ht || hash_none ht) = true -> spec_segwit_msg pt_ok H t idx sc v ht = spec_segwit_msg pt_ok H t' idx sc v ht).
 Proof. intros idx t t' E. split; intros; [now apply legacy_other_sequences|now apply segwit_other_sequences]. Qed.
 
-(* ------------------------------------------------ committed fields matter (PARTIAL) ------------------------------------------------ *)
-(* FULL STATEMENT (not proved): for each algorithm and hash type, two queries with the same message agree on EVERY field the
-   algorithm commits to, or an explicit SHA-256 collision is exhibited.  Proved: the fields serialized directly at fixed offsets
-   and, through collision extraction, the serialized pre-image of every sub-hash — not iterated into the individual list
-   elements nor into the variable-length middle of the legacy / segwit messages. *)
+(* ------------------------------------------------ committed fields matter: the exact characterisation ------------------------------------------------ *)
+(* `legacy_committed`, `segwit_committed`, `taproot_committed` (Model/SighashCommit.v) list, per algorithm, hash type and input index,
+   the in-memory fields the message commits to.  For canonical values (`canon_tx`: what decoding from consensus bytes guarantees) and
+   digests that consensus defines:
+     SOUND    equal committed views  =>  equal digests                                        (the C03_committed_complete theorems)
+     COMPLETE equal digests  =>  equal committed views, or an explicit collision              (the C03_committed_matters theorems)
+   i.e. the digest changes whenever any committed field changes, and only then.
+   The alternatives besides a collision of H / Htag are preimages of two constants that consensus itself uses as pseudo-hashes:
+   the legacy SIGHASH_SINGLE constant 0100..00 and the segwit "no output" zero hash.
+   RESIDUAL (segwit v0 only, a property of the consensus format): hashIssuance is a hash over "0x00 or issuance" per input with no
+   count or flag; the view therefore carries that concatenation, not the individual issuances (C03_segwit_issuance_concat_ambiguous);
+   the individual issuances are determined once it is known which inputs issue (C03_issuances_given_pattern). *)
 Hypothesis Hlen : forall x, length (H x) = 32%nat.
-Theorem C03_committed_matters_partial_legacy : forall t t' idx idx' sc sc' ht ht' m,
-  spec_legacy_msg pt_ok flags t idx sc ht = Some m -> spec_legacy_msg pt_ok flags t' idx' sc' ht' = Some m ->
-  tx_version t < 4294967296 -> tx_version t' < 4294967296 -> tx_lock t < 4294967296 -> tx_lock t' < 4294967296 -> ht < 4294967296 -> ht' < 4294967296 ->
-  tx_version t = tx_version t' /\ tx_lock t = tx_lock t' /\ ht = ht'.
-Proof. exact (legacy_commits_ends pt_ok flags). Qed.
-Theorem C03_committed_matters_partial_segwit : forall t t' idx idx' sc sc' v v' ht m me me',
-  spec_segwit_msg pt_ok H t idx sc v ht = Some m -> spec_segwit_msg pt_ok H t' idx' sc' v' ht = Some m ->
-  nth_error (tx_in t) idx = Some me -> nth_error (tx_in t') idx' = Some me' ->
-  tx_version t < 4294967296 -> tx_version t' < 4294967296 ->
-  length (o_txid (in_prev me)) = 32%nat -> length (o_txid (in_prev me')) = 32%nat -> o_vout (in_prev me) < 4294967296 -> o_vout (in_prev me') < 4294967296 ->
-  (tx_version t = tx_version t' /\ in_prev me = in_prev me') /\
-  (anyone_can_pay ht = false -> (concat (map (fun i => ser_outpoint (in_prev i)) (tx_in t)) = concat (map (fun i => ser_outpoint (in_prev i)) (tx_in t')) \/ Collision H) /\
-                                 (concat (map (issuance_or_zero pt_ok) (tx_in t)) = concat (map (issuance_or_zero pt_ok) (tx_in t')) \/ Collision H)) /\
-  (anyone_can_pay ht = false -> hash_single ht = false -> hash_none ht = false ->
-     concat (map (fun i => ser_u32 (in_seq i)) (tx_in t)) = concat (map (fun i => ser_u32 (in_seq i)) (tx_in t')) \/ Collision H).
-Proof. exact (segwit_commits pt_ok H Hlen). Qed.
-(* ... in particular: taproot ALL/DEFAULT commits to the output witnesses (last clause) *)
-Theorem C03_committed_matters_partial_taproot : forall t t' spent spent' idx idx' annex annex' leaf leaf' ht g g' m,
-  spec_taproot_msg pt_ok H t spent idx annex leaf ht g = Some m -> spec_taproot_msg pt_ok H t' spent' idx' annex' leaf' ht g' = Some m ->
-  length g = 32%nat -> length g' = 32%nat -> tx_version t < 4294967296 -> tx_version t' < 4294967296 -> tx_lock t < 4294967296 -> tx_lock t' < 4294967296 ->
-  (g = g' /\ tx_version t = tx_version t' /\ tx_lock t = tx_lock t') /\
-  (tap_input_acp ht = false ->
-     (map (fun i => n2b (outpoint_flag_byte i)) (tx_in t) = map (fun i => n2b (outpoint_flag_byte i)) (tx_in t') \/ Collision H) /\
-     (concat (map (fun i => ser_outpoint (in_prev i)) (tx_in t)) = concat (map (fun i => ser_outpoint (in_prev i)) (tx_in t')) \/ Collision H) /\
-     (concat (map (fun o => ser_asset pt_ok (out_asset o) ++ ser_value pt_ok (out_value o)) spent) = concat (map (fun o => ser_asset pt_ok (out_asset o) ++ ser_value pt_ok (out_value o)) spent') \/ Collision H) /\
-     (concat (map (fun o => ser_bytes (out_script o)) spent) = concat (map (fun o => ser_bytes (out_script o)) spent') \/ Collision H) /\
-     (concat (map (fun i => ser_u32 (in_seq i)) (tx_in t)) = concat (map (fun i => ser_u32 (in_seq i)) (tx_in t')) \/ Collision H) /\
-     (concat (map (issuance_or_zero pt_ok) (tx_in t)) = concat (map (issuance_or_zero pt_ok) (tx_in t')) \/ Collision H) /\
-     (concat (map issuance_proofs (tx_in t)) = concat (map issuance_proofs (tx_in t')) \/ Collision H) /\
-     (tap_output_type ht = SIGHASH_ALL ->
-        (concat (map (ser_txout pt_ok) (tx_out t)) = concat (map (ser_txout pt_ok) (tx_out t')) \/ Collision H) /\
-        (concat (map output_witness (tx_out t)) = concat (map output_witness (tx_out t')) \/ Collision H))).
-Proof. exact (taproot_commits pt_ok H Hlen). Qed.
+Theorem C03_committed_matters_legacy : forall t t' idx idx' sc sc' ht ht' d,
+  spec_legacy_digest pt_ok H true t idx sc ht = Some d -> spec_legacy_digest pt_ok H true t' idx' sc' ht' = Some d ->
+  canon_tx pt_ok t = true -> canon_tx pt_ok t' = true -> leg_query_ok sc ht = true -> leg_query_ok sc' ht' = true ->
+  legacy_committed t idx sc ht = legacy_committed t' idx' sc' ht' \/ Collision H \/ Preimage H uint256_one.
+Proof. exact (legacy_digest_sensitive pt_ok H H). Qed.
+Theorem C03_committed_matters_segwit : forall t t' idx idx' sc sc' v v' ht ht' d,
+  spec_segwit_digest pt_ok H t idx sc v ht = Some d -> spec_segwit_digest pt_ok H t' idx' sc' v' ht' = Some d ->
+  canon_tx pt_ok t = true -> canon_tx pt_ok t' = true -> seg_query_ok pt_ok sc v ht = true -> seg_query_ok pt_ok sc' v' ht' = true ->
+  segwit_committed pt_ok t idx sc v ht = segwit_committed pt_ok t' idx' sc' v' ht' \/ Collision H \/ Preimage H zero256.
+Proof. exact (segwit_digest_sensitive pt_ok H Hlen). Qed.
+Theorem C03_committed_matters_taproot : forall t t' spent spent' idx idx' annex annex' leaf leaf' ht ht' g g' d,
+  spec_taproot_digest pt_ok H Htag t spent idx annex leaf ht g = Some d -> spec_taproot_digest pt_ok H Htag t' spent' idx' annex' leaf' ht' g' = Some d ->
+  canon_tx pt_ok t = true -> canon_tx pt_ok t' = true -> forallb (canon_out pt_ok) spent = true -> forallb (canon_out pt_ok) spent' = true ->
+  tap_query_ok g annex leaf idx = true -> tap_query_ok g' annex' leaf' idx' = true ->
+  taproot_committed t spent idx annex leaf ht g = taproot_committed t' spent' idx' annex' leaf' ht' g' \/ Collision H \/ Collision Htag.
+Proof. exact (taproot_digest_sensitive pt_ok H Htag Hlen). Qed.
+(* the legacy message itself is injective on the committed view: no hash is involved *)
+Theorem C03_legacy_message_injective : forall t t' idx idx' sc sc' ht ht' m,
+  spec_legacy_msg pt_ok true t idx sc ht = Some m -> spec_legacy_msg pt_ok true t' idx' sc' ht' = Some m ->
+  canon_tx pt_ok t = true -> canon_tx pt_ok t' = true -> leg_query_ok sc ht = true -> leg_query_ok sc' ht' = true ->
+  legacy_committed t idx sc ht = legacy_committed t' idx' sc' ht'.
+Proof. exact (SighashCommitLeg.legacy_msg_sensitive pt_ok H). Qed.
+
+Theorem C03_committed_complete_legacy : forall t t' idx idx' sc sc' ht ht' d d',
+  spec_legacy_digest pt_ok H true t idx sc ht = Some d -> spec_legacy_digest pt_ok H true t' idx' sc' ht' = Some d' ->
+  legacy_committed t idx sc ht = legacy_committed t' idx' sc' ht' -> d = d'.
+Proof. exact (legacy_digest_complete pt_ok H H). Qed.
+Theorem C03_committed_complete_segwit : forall t t' idx idx' sc sc' v v' ht ht' d d',
+  spec_segwit_digest pt_ok H t idx sc v ht = Some d -> spec_segwit_digest pt_ok H t' idx' sc' v' ht' = Some d' ->
+  segwit_committed pt_ok t idx sc v ht = segwit_committed pt_ok t' idx' sc' v' ht' -> d = d'.
+Proof. exact (segwit_digest_complete pt_ok H). Qed.
+Theorem C03_committed_complete_taproot : forall t t' spent spent' idx idx' annex annex' leaf leaf' ht ht' g g' d d',
+  spec_taproot_digest pt_ok H Htag t spent idx annex leaf ht g = Some d -> spec_taproot_digest pt_ok H Htag t' spent' idx' annex' leaf' ht' g' = Some d' ->
+  taproot_committed t spent idx annex leaf ht g = taproot_committed t' spent' idx' annex' leaf' ht' g' -> d = d'.
+Proof. exact (taproot_digest_complete pt_ok H Htag). Qed.
+(* the canonicity hypothesis holds of every transaction the consensus decoder returns (C01), for MAX_VEC_SIZE and caps below 2^64 *)
+Theorem C03_decoded_transactions_canonical : forall ci co cv bs t, maxvec < BIG -> ci < BIG -> co < BIG ->
+  deserialize (c_tx pt_ok maxvec ci co cv) bs = Some t -> canon_tx pt_ok t = true.
+Proof. intros ci co cv bs t M Ci Co D. apply (decoded_tx_canonical pt_ok maxvec ci co cv M Ci Co).
+  exact (proj2 (deserialize_exact _ (c_tx_lawful pt_ok maxvec ci co cv) bs t D)). Qed.
+(* the residual, positively: with the same issuing pattern the concatenation determines every issuance *)
+Theorem C03_issuances_given_pattern : forall l l', forallb (canon_in pt_ok) l = true -> forallb (canon_in pt_ok) l' = true ->
+  map issuance_null l = map issuance_null l' ->
+  concat (map (issuance_or_zero pt_ok) l) = concat (map (issuance_or_zero pt_ok) l') -> map fv_iss_opt l = map fv_iss_opt l'.
+Proof. exact (iss_concat_inj pt_ok). Qed.
 End C03.
 
 Definition c03_in : txin := {| in_prev := {| o_txid := repeat x11 32; o_vout := 0 |}; in_pegin := false; in_script := []; in_seq := 4294967295;
@@ -203,6 +222,31 @@ Example C03_relations_nontrivial :
   tx_eq_but_other_sequences 1 c03_tx {| tx_version := 2; tx_lock := 0; tx_in := [set_seq c03_in 77; c03_iss_in]; tx_out := [c03_out] |}.
 Proof. unfold tx_sig_eq, tx_eq_at_input, tx_eq_but_other_sequences, in_sig_eq. cbn. repeat split; repeat constructor. Qed.
 
+(* the residual, negatively: two canonical three-input transactions that differ in WHICH of the first two inputs issues (and in the
+   issuance), with the same segwit v0 message for the third input under SIGHASH_ALL — for every hash function *)
+Definition amb_prev (b : byte) (n : N) : outpoint := {| o_txid := repeat b 32; o_vout := n |}.
+Definition amb_in (p : outpoint) (iss : issuance) : txin := {| in_prev := p; in_pegin := false; in_script := []; in_seq := 4294967295; in_iss := iss; in_wit := empty_inwit |}.
+Definition amb_I : issuance := {| i_nonce := zero32; i_entropy := zero32; i_amount := VExplicit 7; i_keys := VNull |}.
+Definition amb_I' : issuance := {| i_nonce := zero32; i_entropy := zero32; i_amount := VNull; i_keys := VExplicit 7 |}.
+Definition amb_tx : tx := {| tx_version := 2; tx_lock := 0; tx_out := [c03_out];
+  tx_in := [amb_in (amb_prev x01 0) null_issuance; amb_in (amb_prev x02 1) amb_I; amb_in (amb_prev x03 2) null_issuance] |}.
+Definition amb_tx' : tx := {| tx_version := 2; tx_lock := 0; tx_out := [c03_out];
+  tx_in := [amb_in (amb_prev x01 0) amb_I'; amb_in (amb_prev x02 1) null_issuance; amb_in (amb_prev x03 2) null_issuance] |}.
+Example C03_segwit_issuance_concat_ambiguous : forall H,
+  canon_tx (fun _ => true) amb_tx = true /\ canon_tx (fun _ => true) amb_tx' = true /\
+  map fv_iss_opt (tx_in amb_tx) <> map fv_iss_opt (tx_in amb_tx') /\
+  spec_segwit_msg (fun _ => true) H amb_tx 2 [x51] (VExplicit 5) 1 <> None /\
+  spec_segwit_msg (fun _ => true) H amb_tx 2 [x51] (VExplicit 5) 1 = spec_segwit_msg (fun _ => true) H amb_tx' 2 [x51] (VExplicit 5) 1.
+Proof. intros H. split; [vm_compute; reflexivity|]. split; [vm_compute; reflexivity|]. split; [vm_compute; discriminate|]. split; [vm_compute; discriminate|].
+  vm_compute. reflexivity. Qed.
+(* the canonicity hypothesis is satisfiable by a transaction with a pegin + issuance input, and the three views are non-trivial *)
+Example C03_canonical_example :
+  canon_tx (fun _ => true) c03_tx = true /\ forallb (canon_out (fun _ => true)) [c03_out; c03_out] = true /\
+  tap_query_ok (repeat x00 32) (Some [x50; x01]) (Some (repeat x55 32, 4294967295)) 1 = true /\
+  length (taproot_committed c03_tx [c03_out; c03_out] 1 (Some [x50; x01]) (Some (repeat x55 32, 4294967295)) 129 (repeat x00 32)) = 19%nat /\
+  length (legacy_committed c03_tx 1 [x51] 1) = 5%nat /\ length (segwit_committed (fun _ => true) c03_tx 1 [x51] (VExplicit 5) 1) = 12%nat.
+Proof. vm_compute. repeat split; reflexivity. Qed.
+
 Check (C03_legacy_refines : forall pt_ok maxvec H Htag t idx sc ty, (idx < length (tx_in t))%nat ->
   exists d, impl_digest pt_ok maxvec H Htag t (OLegacy idx sc ty) = SOk d /\ spec_legacy_digest pt_ok H true t idx sc (ecdsa_u32 ty) = Some d).
 Check (C03_legacy_refines_message : forall pt_ok maxvec H Htag t idx sc ty, (idx < length (tx_in t))%nat -> legacy_single_bug t idx (ecdsa_u32 ty) = false ->
@@ -234,8 +278,26 @@ Check (C03_taproot_refines_one : forall pt_ok maxvec H Htag t spent idx o annex 
   schnorr_acp ty = true -> length spent = length (tx_in t) -> nth_error spent idx = Some o ->
   impl_msg pt_ok maxvec H t (OTaproot idx (POne idx o) annex leaf ty g) = impl_msg pt_ok maxvec H t (OTaproot idx (PAll spent) annex leaf ty g) /\
   impl_digest pt_ok maxvec H Htag t (OTaproot idx (POne idx o) annex leaf ty g) = impl_digest pt_ok maxvec H Htag t (OTaproot idx (PAll spent) annex leaf ty g)).
+Check (C03_committed_matters_taproot : forall pt_ok H Htag, (forall x, length (H x) = 32%nat) -> forall t t' spent spent' idx idx' annex annex' leaf leaf' ht ht' g g' d,
+  spec_taproot_digest pt_ok H Htag t spent idx annex leaf ht g = Some d -> spec_taproot_digest pt_ok H Htag t' spent' idx' annex' leaf' ht' g' = Some d ->
+  canon_tx pt_ok t = true -> canon_tx pt_ok t' = true -> forallb (canon_out pt_ok) spent = true -> forallb (canon_out pt_ok) spent' = true ->
+  tap_query_ok g annex leaf idx = true -> tap_query_ok g' annex' leaf' idx' = true ->
+  taproot_committed t spent idx annex leaf ht g = taproot_committed t' spent' idx' annex' leaf' ht' g' \/ Collision H \/ Collision Htag).
+Check (C03_committed_matters_segwit : forall pt_ok H, (forall x, length (H x) = 32%nat) -> forall t t' idx idx' sc sc' v v' ht ht' d,
+  spec_segwit_digest pt_ok H t idx sc v ht = Some d -> spec_segwit_digest pt_ok H t' idx' sc' v' ht' = Some d ->
+  canon_tx pt_ok t = true -> canon_tx pt_ok t' = true -> seg_query_ok pt_ok sc v ht = true -> seg_query_ok pt_ok sc' v' ht' = true ->
+  segwit_committed pt_ok t idx sc v ht = segwit_committed pt_ok t' idx' sc' v' ht' \/ Collision H \/ Preimage H zero256).
+Check (C03_committed_matters_legacy : forall pt_ok H t t' idx idx' sc sc' ht ht' d,
+  spec_legacy_digest pt_ok H true t idx sc ht = Some d -> spec_legacy_digest pt_ok H true t' idx' sc' ht' = Some d ->
+  canon_tx pt_ok t = true -> canon_tx pt_ok t' = true -> leg_query_ok sc ht = true -> leg_query_ok sc' ht' = true ->
+  legacy_committed t idx sc ht = legacy_committed t' idx' sc' ht' \/ Collision H \/ Preimage H uint256_one).
+Check (C03_committed_complete_taproot : forall pt_ok H Htag t t' spent spent' idx idx' annex annex' leaf leaf' ht ht' g g' d d',
+  spec_taproot_digest pt_ok H Htag t spent idx annex leaf ht g = Some d -> spec_taproot_digest pt_ok H Htag t' spent' idx' annex' leaf' ht' g' = Some d' ->
+  taproot_committed t spent idx annex leaf ht g = taproot_committed t' spent' idx' annex' leaf' ht' g' -> d = d').
 Print Assumptions C03_legacy_refines.
 Print Assumptions C03_segwit_refines.
 Print Assumptions C03_taproot_refines.
-Print Assumptions C03_committed_matters_partial_taproot.
+Print Assumptions C03_committed_matters_taproot.
+Print Assumptions C03_committed_matters_legacy.
+Print Assumptions C03_committed_complete_taproot.
 Print Assumptions C03_legacy_single_out_of_range.
